@@ -106,6 +106,13 @@ def run(tier, replay=None):
     tla.sany("Retry")
     tla.sany("RetryClamp")
     tla.sany("TraceRetry")
+    if tier == "thorough":
+        # the attempt bound for ANY MaxRetries: an inductive invariant discharged by Apalache (RetryInd.tla = Retry.tla with the
+        # history sequences replaced by their lengths); TLC covers MaxRetries 0..3 only
+        obligations = tla.apalache_inductive("RetryInd")
+        if not all(ok for _, ok, _ in obligations):
+            raise common.Broken("RetryInd: Apalache refutes %s" % [n for n, ok, _ in obligations if not ok])
+        run_.extra["apalache_inductive_invariant"] = [{"obligation": n, "holds": ok, "seconds": round(sec, 1)} for n, ok, sec in obligations]
     cfgs = ["none", "0", "1", "2"] + (["3"] if tier == "thorough" else [])
     scripts = []
     for c in cfgs:
